@@ -28,7 +28,7 @@ def _os_write_pipe(ex, st, self_v, args, kwargs, node):
     return [ex.res(st, SInt(1)), ex.res_exc(bad, e)]
 
 
-def mk_arbiter(env, st, pidfile=None):
+def mk_arbiter(env, st, pidfile=None, tracked_are_children=False):
     env.use_class("gunicorn.arbiter", "Arbiter")
     mk_kernel(st)
     STUBS["os.write"] = _os_write_pipe
@@ -42,6 +42,8 @@ def mk_arbiter(env, st, pidfile=None):
     p = qvar("p")
     # Inv: every tracked worker was created by spawn_worker: age <= worker_age ; and it is a child the kernel knows or knew
     st.assume(z3.ForAll([p], Implies(sel(m, p) != 0, And(age_of(st, sel(m, p)) <= wa, age_of(st, sel(m, p)) >= 1, p > 0))))
+    if tracked_are_children:
+        st.assume(z3.ForAll([p], Implies(sel(m, p) != 0, sel(st.ghost["K_state"], p) != 0)))
     f = {"WORKERS": W, "_num_workers": SInt(nw), "cfg": cfg, "log": log, "pid": SInt(z3.Int("me")),
          "timeout": SInt(z3.Int("arb.timeout")), "worker_age": SInt(wa), "app": Opaque("app"),
          "reexec_pid": SInt(z3.Int("arb.reexec_pid")), "master_pid": SInt(z3.Int("arb.master_pid")),
@@ -197,3 +199,179 @@ def _kw_inv(L):
                                                                  And(sel(k1, p) == sel(k0, p), sel(m1, p) == 0)))),
         z3.ForAll([p], Implies(Not(done(p)), And(sel(k1, p) == sel(k0, p), sel(m1, p) == sel(m0, p)))),
         st1.ghost["K_state"] == st0.ghost["K_state"])
+
+
+# ======================================================================================================
+# spawn_worker / spawn_workers
+# ======================================================================================================
+class _ChildNeverReturns:
+    pass
+
+
+def _setproctitle(ex, st, self_v, args, kwargs, node):
+    return R1(ex, st, NONE)
+
+
+@contract("gunicorn.util:_setproctitle", props=("C03",))
+class SetProcTitle(Contract):
+    trusted = True
+
+
+@contract("abstract:WorkerObjInit.init_process", props=("C03", "C20"))
+class WorkerInitProcess(Contract):
+    trusted = True
+    params = ["self"]
+
+
+def _worker_init_process(ex, st, self_v, args, kwargs, node):
+    """worker.init_process() in the CHILD: runs the worker until it exits (Worker.init_process is C20's subject); may raise"""
+    st.ghost["child_init_process"] = st.ghost.get("child_init_process", 0) + 1
+    from gunicorn.errors import AppImportError
+    a, b = st.fork(), st.fork()
+    return [ex.res(st, NONE), ex.res_exc(a, SExc(ex.env.repo.live("gunicorn.errors").AppImportError)), ex.res_exc(b, SExc(RuntimeError))]
+
+
+STUBS["WorkerObj.init_process"] = _worker_init_process
+
+
+@contract("gunicorn.arbiter:Arbiter.spawn_worker", props=("C03", "C10", "C11", "C20"))
+class SpawnWorker(Contract):
+    """parent: exactly one new tracked child with the next age; child: runs worker.init_process() and NEVER returns into the
+    master loop (always leaves through sys.exit) with status 3 if it failed before booting, 4 if the application failed to load"""
+
+    def cases(self, env):
+        from .arbmodel import WORKER_FIELDS
+        WORKER_FIELDS["init_process"] = "WorkerObj.init_process"
+        WORKER_FIELDS["sockets"] = lambda ex, st, ref: Opaque("sockets")
+        st = State()
+        a = mk_arbiter(env, st, tracked_are_children=True)
+        st.obj(a).fields["LISTENERS"] = Opaque("listeners")
+        return [("fork", st, {"self": a}, {})]
+
+    def pre(self, c):
+        m = w_map(c.st, A(c).fields["WORKERS"])
+        p = qvar("p")
+        return [("Inv:every-tracked-pid-is-a-child-the-kernel-still-knows", z3.ForAll([p], Implies(sel(m, p) != 0, sel(c.st.ghost["K_state"], p) != 0)))]
+
+    def modifies(self, c):
+        W = A(c).fields["WORKERS"]
+        return [("field", W, "g_map"), ("field", W, "g_size"), ("field", c.a["self"], "worker_age"), ("ghost", "K_state"),
+                ("cheap", "WorkerObj", "age"), ("cheap", "WorkerObj", "aborted"), ("cheap", "WorkerObj", "pid"), ("cheap", "WorkerObj", "booted")]
+
+    def result_shape(self, c):
+        return IntShape()
+
+    def raises(self, c):
+        return [(SystemExit, None), (OSError, None), (RuntimeError, None)]
+
+    def exc_post(self, c):
+        if c.exc is not None and c.exc.cls is SystemExit and c.mode != "call":
+            code = c.exc.fields.get("code")
+            in_child = c.st.ghost.get("in_child", False)
+            out = [("only-the-child-exits", TRUE if in_child else FALSE)]
+            return out
+        return []
+
+    def post(self, c):
+        st1, st0 = c.st, c.old
+        W = A(c).fields["WORKERS"]
+        m1, m0 = w_map(st1, W), w_map(st0, W)
+        pid = c.result.t
+        wa0 = A(c, st0).fields["worker_age"].t
+        p = qvar("p")
+        out = [("returns-only-in-the-parent", TRUE if not st1.ghost.get("in_child", False) else FALSE),
+               ("new-child-is-tracked", And(pid > 0, sel(m0, pid) == 0, sel(m1, pid) != 0, w_size(st1, W) == w_size(st0, W) + 1)),
+               ("new-worker-gets-the-next-age", And(A(c, st1).fields["worker_age"].t == wa0 + 1, age_of(st1, sel(m1, pid)) == wa0 + 1)),
+               ("new-child-is-a-live-process", sel(st1.ghost["K_state"], pid) == 1),
+               ("other-workers-untouched", z3.ForAll([p], Implies(p != pid, And(sel(m1, p) == sel(m0, p),
+                                                                            Implies(sel(m0, p) != 0, age_of(st1, sel(m0, p)) == age_of(st0, sel(m0, p))))))),
+               ("other-processes-untouched", z3.ForAll([p], Implies(p != pid, sel(st1.ghost["K_state"], p) == sel(st0.ghost["K_state"], p))))]
+        if c.mode != "call":
+            t = st1.ghost.get("new_worker_timeout")
+            out.append(("worker-gets-half-the-timeout-as-its-heartbeat-period",
+                        (t.t * 2 == z3.ToReal(A(c, st0).fields["timeout"].t)) if isinstance(t, SReal) else FALSE))
+        return out
+
+    loops = {0: dict(anchor="for sibling in self.WORKERS.values()", cands=[])}
+
+
+@contract("gunicorn.arbiter:Arbiter.spawn_workers", props=("C03",))
+class SpawnWorkers(Contract):
+    def cases(self, env):
+        st = State()
+        a = mk_arbiter(env, st, tracked_are_children=True)
+        st.obj(a).fields["LISTENERS"] = Opaque("listeners")
+        return [("spawn", st, {"self": a}, {})]
+
+    def pre(self, c):
+        return SpawnWorker.pre(SpawnWorker(), c)
+
+    def modifies(self, c):
+        return SpawnWorker.modifies(SpawnWorker(), c) + [("ghost", "now")]
+
+    def raises(self, c):
+        return [(SystemExit, None), (OSError, None), (RuntimeError, None)]
+
+    def post(self, c):
+        st1, st0 = c.st, c.old
+        W = A(c).fields["WORKERS"]
+        nw = A(c, st0).fields["_num_workers"].t
+        n0, n1 = w_size(st0, W), w_size(st1, W)
+        m1, m0 = w_map(st1, W), w_map(st0, W)
+        wa0 = A(c, st0).fields["worker_age"].t
+        p = qvar("p")
+        return [("pool-filled-up-to-num_workers", n1 == Max(n0, nw)),
+                ("existing-workers-kept", z3.ForAll([p], Implies(sel(m0, p) != 0, sel(m1, p) == sel(m0, p)))),
+                ("new-workers-are-younger-than-all-previous", z3.ForAll([p], Implies(And(sel(m0, p) == 0, sel(m1, p) != 0), age_of(st1, sel(m1, p)) > wa0))),
+                ("ages-of-existing-workers-kept", z3.ForAll([p], Implies(sel(m0, p) != 0, age_of(st1, sel(m0, p)) == age_of(st0, sel(m0, p))))),
+                ("worker_age-only-grows", A(c, st1).fields["worker_age"].t >= wa0)]
+
+    loops = {0: dict(anchor="for _ in range(self.num_workers - len(self.WORKERS))", cands=[
+        ("size==n0+i", lambda L: w_size(L.st, _W(L)) == w_size(L.fentry, _W(L)) + L.loop_index),
+        ("existing-kept", lambda L: _sp_inv(L)),
+        ("num_workers-fixed", lambda L: L.st.obj(L.self).fields["_num_workers"].t == L.fentry.obj(L.self).fields["_num_workers"].t),
+        ("Inv:tracked-are-children", lambda L: z3.ForAll([qvar("p")], Implies(sel(w_map(L.st, _W(L)), z3.Int("p!inv")) != 0, sel(L.st.ghost["K_state"], z3.Int("p!inv")) != 0)) if False else _inv_children(L)),
+    ])}
+
+
+def _inv_children(L):
+    p = qvar("p")
+    return z3.ForAll([p], Implies(sel(w_map(L.st, _W(L)), p) != 0, sel(L.st.ghost["K_state"], p) != 0))
+
+
+def _W(L):
+    return L.st.obj(L.self).fields["WORKERS"]
+
+
+def _sp_inv(L):
+    st1, st0 = L.st, L.fentry
+    W = _W(L)
+    m1, m0 = w_map(st1, W), w_map(st0, W)
+    wa0 = st0.obj(L.self).fields["worker_age"].t
+    wa1 = st1.obj(L.self).fields["worker_age"].t
+    p = qvar("p")
+    return And(z3.ForAll([p], Implies(sel(m0, p) != 0, And(sel(m1, p) == sel(m0, p), age_of(st1, sel(m0, p)) == age_of(st0, sel(m0, p))))),
+               z3.ForAll([p], Implies(And(sel(m0, p) == 0, sel(m1, p) != 0), And(age_of(st1, sel(m1, p)) > wa0, age_of(st1, sel(m1, p)) <= wa1))),
+               wa1 >= wa0)
+
+
+@contract("gunicorn.sock:create_sockets", props=("C10", "C14"))
+class CreateSockets(Contract):
+    """TRUSTED here: binds / adopts listening sockets and returns the list (its pieces set_options / UnixSocket.bind are verified)"""
+    trusted = True
+
+    def raises(self, c):
+        return [(SystemExit, None), (OSError, None)]
+
+    def effects(self, c):
+        c.st.ghost["create_sockets_calls"] = list(c.st.ghost.get("create_sockets_calls", [])) + [c.a.get("fds", NONE)]
+
+    def result_shape(self, c):
+        return c.st.alloc(HList([]))
+
+
+def _opaque_str(ex, st, self_v, args, kwargs, node):
+    return R1(ex, st, strops.fresh_str(st, "text", True))
+
+
+STUBS["traceback.format_exc"] = _opaque_str
